@@ -1,4 +1,5 @@
 """C10 - server-port selection and port mapping behave as documented."""
+import copy
 from ..rng import Rng
 from .. import gen, world
 from ..harness import Outcome
@@ -15,7 +16,8 @@ class C10(Prop):
             "selected, with the documented output server port and an unchanged client port; non-trivial = at least one "
             "connection on a non-default port or -m given; distinct = spec digests")
     reach = ["m_absent", "m_bare", "m_pairs", "m_trailing_comma", "p_list", "server_on_unlisted_port", "server_on_p_port",
-             "server_on_44330", "quic_conn", "mapped_port_hit", "mapped_default_8080", "first_segment_from_server"]
+             "server_on_44330", "quic_conn", "mapped_port_hit", "mapped_default_8080", "first_segment_from_server",
+             "after_run_with_other_port_map", "cli_subprocess_optimised"]
 
     def plan(self, tier):
         p = super().plan(tier)
@@ -79,6 +81,13 @@ class C10(Prop):
         if R.chance(20):
             cli["d"] = R.choice(["", "INFO", "DEBUG", "DEBUG", "WARNING"])
         spec = {"prop": "C10", "conns": conns, "tap": gen.gen_tap(R.fork("tap")), "cli": cli, "unlisted": unl}
+        E = R.fork("earlier")
+        if "m" in cli and E.chance(40):
+            # the same process exported before with another -m list (pairs for every server port of this world): the pairs
+            # of an earlier run must not survive into this one
+            spec["earlier_m"] = ["%d:%d" % (p, E.range(1024, 65000)) for p in sorted(set(c["s"]["port"] for c in conns))]
+        if idx % 16 == 5 and cli.get("m"):
+            spec["subprocess_optimised"] = True
         tls = [c for c in conns if c["proto"] == "tls"]
         if tls and R.chance(12):
             # the capture missed the client's first flight of one connection: the first segment seen comes from the
@@ -104,8 +113,19 @@ class C10(Prop):
         out = Outcome()
         ex = world.expand(spec)
         out.sim_time_ns = ex["stats"]["sim_time_ns"]
-        res = run_export(lane, spec, ex, out)
         cli = spec.get("cli", {})
+        if spec.get("earlier_m"):
+            s0 = copy.deepcopy(spec)
+            s0["cli"] = dict(cli, m=spec["earlier_m"])
+            ex_e = world.expand(s0)
+            rr = lane.sut(spec.get("hashseed", 0)).run(ex_e["capture"], ex_e["keylog"], ex_e["argv"],
+                                                       extra_runs=[dict(capture=ex["capture"], keylog=ex["keylog"],
+                                                                        argv_opts=ex["argv"])])
+            out.exports += 2
+            out.count("reach:after_run_with_other_port_map")
+            res = rr[1]
+        else:
+            res = run_export(lane, spec, ex, out)
         out.sample = {"seed": spec.get("seed"), "cli": cli,
                       "servers": [[c["proto"], c["s"]["port"], c["c"]["port"]] for c in spec["conns"]]}
         if "m" not in cli:
@@ -125,11 +145,28 @@ class C10(Prop):
         if fc:
             out.violate("run-does-not-fail", fc, failure_detail(res))
             return out
+        self.judge(out, spec, ex, res.out, "")
+        if spec.get("subprocess_optimised"):
+            # a fresh interpreter with assert statements stripped (python -O / PYTHONOPTIMIZE=1)
+            from .. import sut as SUT
+            code, data, log = SUT.run_cli_subprocess(ex["capture"], ex["keylog"], ex["argv"], hashseed=spec.get("seed", 0) % 1000,
+                                                     env_extra={"PYTHONOPTIMIZE": "1"})
+            out.exports += 1
+            out.count("reach:cli_subprocess_optimised")
+            if code != 0 or data is None:
+                out.violate("run-does-not-fail", "cli-subprocess:exit-%s" % code, log[-800:])
+            else:
+                self.judge(out, spec, ex, data, "python -O: ")
+        return out
+
+    def judge(self, out, spec, ex, data, pre):
+        cli = spec.get("cli", {})
+        selected = set([443, 44330] + list(cli.get("p", [])))
         errors = []
         try:
-            parsed, tcp, udp = observer.observe(res.out, errors)
+            parsed, tcp, udp = observer.observe(data, errors)
         except Exception as e:
-            out.violate("output-readable", "unreadable", str(e))
+            out.violate("output-readable", "unreadable", pre + str(e))
             return out
         flows = {}
         for p in parsed:
@@ -153,7 +190,7 @@ class C10(Prop):
             mine = [k for k in flows if k[0] == proto and ((k[2] == cip and k[3] == cp and k[4] == sip) or
                                                            (k[4] == cip and k[5] == cp and k[2] == sip))]
             accounted.update(mine)
-            tag = "%s conn %d client port %d server port %d, options %s" % (c["proto"], c["id"], cp, sp, cli)
+            tag = pre + "%s conn %d client port %d server port %d, options %s" % (c["proto"], c["id"], cp, sp, cli)
             if sp not in selected and c["proto"] == "tls":
                 # the port selection rule is stated for TCP/TLS only; QUIC is recognised on any UDP port
                 if mine:
